@@ -106,6 +106,11 @@ Fixpoint exp (fuel : nat) (s : tspec) (t : nat) : out * list tr * nat :=
       match exp fuel kid t with
       | (Ret _, _, _) => if ok then (Ret t, [], 0) else (Exc (6000 + n), [TR n t (Some (6000 + n)) []], 6000 + n)
       | (Exc e, trk, ek) => (Exc e, above n t e trk ek, e) end
+  (* Not: a sub-spec that failed is forgiven and nothing of it shows; one that passed makes the Not refuse, alone *)
+  | NotS n kid =>
+      match exp fuel kid t with
+      | (Ret _, _, _) => (Exc (6000 + n), [TR n t (Some (6000 + n)) []], 6000 + n)
+      | (Exc _, _, _) => (Ret t, [], 0) end
   end end.
 
 Definition expected (s : tspec) : out * list tr := let '(o, trs, _) := exp (S (tdepth s)) s root_target in (o, trs).
@@ -148,6 +153,7 @@ Fixpoint relabel (fuel : nat) (s : tspec) (n : nat) : tspec * nat :=
       (Switch n cs', m)
   | Guard _ ok k => let '(k', m) := relabel fuel k (S n) in (Guard n ok k', m)
   | AltD _ l => let '(l', m) := many l (S n) in (AltD n l', m)
+  | NotS _ k => let '(k', m) := relabel fuel k (S n) in (NotS n k', m)
   end end.
 Definition numbered (s : tspec) : tspec := fst (relabel 10 s 1).
 
